@@ -45,8 +45,7 @@ ASSUME = ["the recording cost and the tagging map wrapper (harness) attribute ea
           "the recorder-/tag-based sub-checks are excluded and counted for those cases",
           "the twin relation is checked for the deterministic nested solvers (Nelder-Mead, Powell) and an explicitly given "
           "termination only; DE members draw from the shared global RNG and are therefore not combined with the threaded map",
-          "CandidateRelativeTolerance is not combined with Powell members (documented as invalid for nPop < 2); tight=True is not "
-          "combined with zero-width sides (C02's known finding F17)",
+          "CandidateRelativeTolerance is not combined with Powell members (documented as invalid for nPop < 2)",
           "an infinite optimum (cost inf on the whole box) carries no information about the reported point: location checks "
           "apply to finite energies only (as in C01/C02)",
           "NaN-valued costs are outside the domain; inf is inside"]
@@ -225,12 +224,9 @@ def box_and_extras(draw, dim, c):
 
 
 def bound_modes(c):
-    """how the strict ranges are imposed: mostly the default; tight=True only on boxes without a zero-width side
-    (SetStrictRanges(tight=True) on such a box is C02's known finding F17)"""
-    modes = [[None, None]] * 10 + [[None, True]]
-    if all(F(l) < F(h) for l, h in zip(c['lo'], c['hi'])):
-        modes.append([True, None])          # (costly: the bounds constraint is built symbolically for every member)
-    return st.sampled_from(modes)
+    """how the strict ranges are imposed: mostly the default; tight=True is costly (the bounds constraint is built
+    symbolically for every member)"""
+    return st.sampled_from([[None, None]] * 10 + [[None, True], [True, None]])
 
 
 @st.composite
@@ -277,7 +273,7 @@ def ens_cases(draw, tier):
 
 
 # --------------------------------------------------------------------------- building and running an ensemble
-def configure(t, case, con, pen, ensemble):
+def configure(t, case, con, pen):
     """the settings every member is to be subject to (applied to the ensemble, and to a nested instance)"""
     t.SetStrictRanges(FL(case['lo']), FL(case['hi']), tight=case.get('tight'), clip=case.get('clip'))
     if con is not None:
@@ -315,14 +311,14 @@ def build(case):
     if case['as'] == 'instance':
         # a pre-configured instance is used as given: it carries the settings (and the objective) itself
         inst = K(dim, case['NP']) if case['nested'] == 'DE' else K(dim)
-        configure(inst, case, con, pen, False)
+        configure(inst, case, con, pen)
         inst.SetObjective(cost)
         s.SetNestedSolver(inst)
     elif case['nested'] == 'DE':
         s.SetNestedSolver(K, NP=case['NP'])      # always explicit: the keyword is stored on the class
     else:
         s.SetNestedSolver(K)
-    configure(s, case, con, pen, True)
+    configure(s, case, con, pen)
     sink = {}
     m = harness_map(case['map'], case['order_seed'], sink, dim)
     if m is not None:
@@ -399,8 +395,6 @@ def run_ensemble(case, ctx):
             want = rec + pen_at(bs)
             ctx.expect(feq(be, want), 'C09.best', lambda: dict(where, bestSolution=bs, bestEnergy=be, recorded=rec,
                                                                penalty=float(pen_at(bs)), expected=float(want)))
-        # no evaluated point of any member has a lower energy than the reported best member optimum would allow:
-        # (each member reports the minimum it has seen is NOT promised for every solver, so nothing more is asserted)
 
     # ---- C09.evals
     ok, d = totals_ok(s, cost, recorded)
@@ -465,7 +459,7 @@ def run_ensemble(case, ctx):
         for i, m in enumerate(members):
             t = K(dim)
             t.SetInitialPoints(list(starts[i]))
-            configure(t, case, lab.Constraint(case['constraint']) if case.get('constraint') else None, pen, False)
+            configure(t, case, lab.Constraint(case['constraint']) if case.get('constraint') else None, pen)
             t.Solve(twin_cost, disp=0)
             got = (float(m.bestEnergy), lab.fvec(m.bestSolution), int(m.generations), int(m.evaluations))
             ref = (float(t.bestEnergy), lab.fvec(t.bestSolution), int(t.generations), int(t.evaluations))
@@ -772,7 +766,7 @@ def run_points(case, ctx):
 
 
 TESTS = [
-    Test('ensemble', run_ensemble, strategy=lambda tier: ens_cases(tier), examples={'quick': 2400, 'thorough': 36000}),
+    Test('ensemble', run_ensemble, strategy=lambda tier: ens_cases(tier), examples={'quick': 2000, 'thorough': 36000}),
     Test('wrapper', run_wrapper, strategy=lambda tier: wrapper_cases(tier), examples={'quick': 1200, 'thorough': 18000}),
     Test('points', run_points, strategy=lambda tier: point_cases(tier), examples={'quick': 6000, 'thorough': 100000}),
 ]
